@@ -190,7 +190,8 @@ PROPS = {
     ),
     "C05": dict(
         module="Hb.Props.C05",
-        ties=[("scen", "broken-hash", 200, 6000), ("scen", "broken-eq", 200, 6000), ("scen", "broken-both", 150, 5000)],
+        ties=[("scen", "broken-hash", 200, 6000), ("scen", "broken-eq", 200, 6000), ("scen", "broken-both", 150, 5000),
+              ("scen", "broken-sat", 60, 2000), ("scen", "broken-entry", 100, 3000), ("scen", "broken-table", 100, 3000)],
         backends=["sse2", "portable"],
         design="§7 C05",
         text="Lean theorems quantified over ARBITRARY environments (hash and eq answers are functions of the call number: "
@@ -198,7 +199,9 @@ PROPS = {
              "`fault` is unreachable, every call terminates (all loops within their fuel), the structural invariant holds after "
              "every call, len = number of elements yielded by iteration/drain, every stored element is dropped exactly once "
              "(ledger). None of these proofs mentions the hash-dependent invariant. Tie: histories executed with call-dependent "
-             "pseudo-random Hash and/or Eq tapes (identical splitmix in Rust and Lean) with full dumps compared; direct oracles: "
+             "pseudo-random Hash and/or Eq tapes (identical splitmix in Rust and Lean) with full dumps compared, including histories "
+             "that switch to an unlawful hasher once the table is saturated with tombstones (in-place rehash under a broken hasher), "
+             "the entry / raw-entry API and HashTable (get_many_mut) under unlawful tapes; direct oracles: "
              "structural invariant, ownership ledger, iteration count = len on the real collection.",
         note="Trusted: Lean kernel, axioms propext/Classical.choice/Quot.sound; harness, hooks. Termination on the real code is "
              "observed as completion of the runs.",
